@@ -244,6 +244,14 @@ example : ¬ atomImpl.Coherent (fun n => if n == "implementation_version" then s
 
 example : mergeSingle atomImpl ⟨"implementation_version", .eq, "3.9", false, .gen ⟨.eq, "3.9"⟩⟩ false = none := by decide
 
+/-- what the guards added by the `fix:`es D21, D24, D26 amount to in the model: an atom whose specifier view is not exact
+    is merged with nothing but itself — `&` / `|` with any other atom keeps both atoms side by side -/
+theorem inexact_never_merged (a b : Atom) (isAnd : Bool) (h : a.exactView = false ∨ b.exactView = false)
+    (hne : a.beq b = false) : mergeSingle a b isAnd = none := by
+  unfold mergeSingle
+  rw [if_neg (by simp [hne])]
+  rcases h with h | h <;> simp [h]
+
 /-- instances of the character-level facts (now theorems), evaluated in the kernel -/
 example : SpecParse.parseAltsText ((MOp.ofCOp .ge).str ++ fsText "python_full_version" ⟨.ge, { release := [3, 8] }, false⟩)
     = some [.clauses [fsC "python_full_version" ⟨.ge, { release := [3, 8] }, false⟩]] := by decide
